@@ -8,7 +8,7 @@ input are made inside one eval (map over a host list), on one long-lived parser.
 from decimal import Decimal
 
 from .. import boot, canon, gen, lang, monitors
-from ..rng import Streams, weighted
+from ..rng import Streams, weighted, RealRandom
 from ..seams import ENTROPY
 from ..world import real_eval
 
@@ -32,6 +32,8 @@ REACH_PROBES = ('extreme_prefix_consumed', 'rand01', 'rand_ab_literal', 'rand_ab
                 'rand_list', 'shuffle', 'shuffle_short_list', 'endpoint_coverage_checked', 'illegal_args', 'standin_then_builtin', 'trailing_zero_bounds', 'names_omitted', 'very_wide_range')
 SIM_TIME = 'logical: entropy draws; no clock in this property'
 
+LITERAL_LISTS = {'lit': '[[1], [2], [3]]', 'hash1': '["#red", "#green", "#blue"]', 'hash2': '["#cyan", "#black"]'}
+LITERAL_VALUES = {'lit': [[1], [2], [3]], 'hash1': ['#red', '#green', '#blue'], 'hash2': ['#cyan', '#black']}
 BIG = [10 ** 30, 123456789012345678901234567890123, 10 ** 18, 2 ** 64, 99999999999999999999999999999]
 
 
@@ -73,7 +75,7 @@ def generate(seed, tier):
         if kind == 'rand_ab':
             a, b, bk = _bounds(ro)
             form = weighted(ro, [('literal', 4), ('host_int', 3), ('host_dec', 2), ('host_bool', 0.5 if bk == 'bool' else 0),
-                                 ('literal_dot0', 1.5), ('host_dec_dot00', 1)])
+                                 ('literal_dot0', 1.5), ('host_dec_dot00', 1), ('literal_sugar', 1.5)])
             if form == 'literal' and (a < 0 or b < 0) and max(len(str(abs(a))), len(str(abs(b)))) > 27:
                 # unary minus on a literal rounds to 28 digits before rand sees it (arithmetic, not rand): hand such
                 # bounds over as host values instead
@@ -82,9 +84,9 @@ def generate(seed, tier):
             if b - a <= 5:
                 op['n'] = max(op['n'], 40 * (b - a + 1))
         elif kind == 'rand_list':
-            op['list'] = ro.choice(['L', 'S', 'ONE', 'lit'])
+            op['list'] = ro.choice(['L', 'S', 'ONE', 'lit', 'hash1', 'hash2', 'hash1', 'hash2'])
         elif kind == 'shuffle':
-            op['list'] = ro.choice(['L', 'S', 'ONE', 'E', 'lit'])
+            op['list'] = ro.choice(['L', 'S', 'ONE', 'E', 'lit', 'hash1', 'hash2'])
         elif kind == 'illegal':
             op['what'] = ro.choice(['a_gt_b', 'fraction', 'empty_list', 'three_args', 'string'])
         elif kind == 'no_names':
@@ -144,18 +146,23 @@ def execute(case, ctx):
             a, b = int(op['a']), int(op['b'])
             if op['form'] == 'literal':
                 src = 'map(R, v => rand(%s, %s))' % (lang.render(_num_tree(a)), lang.render(_num_tree(b)))
+            elif op['form'] == 'literal_sugar' and abs(a) < 10 ** 20 and abs(b) < 10 ** 20:
+                # the other spellings of the same call; by the published operator table unary minus binds tighter than
+                # the method / pipe suffix, so -2.rand(7) is rand(-2, 7)
+                la = str(a) if a >= 0 else '-%d' % -a
+                src = 'map(R, v => %s)' % RealRandom(n + a).choice(['%s.rand(%d)' % (la, b), '%s | rand(%d)' % (la, b), '(%s).rand(%d)' % (la, b)])
             elif op['form'] == 'literal_dot0' and a >= 0:
                 # integer-valued numbers written with trailing fractional zeros
                 src = 'map(R, v => rand(%d.0, %d.00))' % (a, b)
             else:
-                conv = {'host_int': int, 'host_dec': Decimal, 'host_bool': bool, 'literal_dot0': Decimal,
+                conv = {'host_int': int, 'host_dec': Decimal, 'host_bool': bool, 'literal_dot0': Decimal, 'literal_sugar': int,
                         'host_dec_dot00': lambda x: Decimal(str(x) + '.00')}[op['form']]
                 names['lo'], names['hi'] = conv(a), conv(b)
                 src = 'map(R, v => rand(lo, hi))'
         elif kind == 'rand_list':
-            src = 'map(R, v => rand(%s))' % ('[[1], [2], [3]]' if op['list'] == 'lit' else op['list'])
+            src = 'map(R, v => rand(%s))' % LITERAL_LISTS.get(op['list'], op['list'])
         elif kind == 'shuffle':
-            src = 'map(R, v => shuffle(%s))' % ('[[1], [2], [3]]' if op['list'] == 'lit' else op['list'])
+            src = 'map(R, v => shuffle(%s))' % LITERAL_LISTS.get(op['list'], op['list'])
         else:
             src = {'a_gt_b': 'rand(5, 1)', 'fraction': 'rand(1.5, 2.5)', 'empty_list': 'rand(E)', 'three_args': 'rand(1, 2, 3)',
                    'string': 'rand("a", "b")'}[op['what']]
@@ -227,7 +234,7 @@ def execute(case, ctx):
                     if not any(v is e for e in src_list):
                         ctx.report('rand_list_not_an_element', '%s: rand(list) returned %r which is not (identically) an element' % (what, v),
                                    {'kind': 'rand_list_not_an_element'})
-                elif v not in ([1], [2], [3]):
+                elif v not in LITERAL_VALUES[op['list']]:
                     ctx.report('rand_list_not_an_element', '%s: rand(list) returned %r' % (what, v), {'kind': 'rand_list_not_an_element'})
         elif kind == 'shuffle':
             ctx.probe('shuffle')
@@ -246,7 +253,7 @@ def execute(case, ctx):
                         ctx.report('shuffle_not_a_permutation', '%s: %r is not a permutation (by element identity) of %r' % (what, v, arg_obj),
                                    {'kind': 'shuffle_not_a_permutation'})
                         break
-                elif sorted(map(repr, v)) != ['[1]', '[2]', '[3]']:
+                elif sorted(map(repr, v)) != sorted(map(repr, LITERAL_VALUES[op['list']])):
                     ctx.report('shuffle_not_a_permutation', '%s: %r' % (what, v), {'kind': 'shuffle_not_a_permutation'})
                     break
             if len(set(map(id, vals))) != len(vals):
